@@ -71,6 +71,17 @@ def build_cases(ctx):
     for d in rng.sample(docs, 40 if big else 8) + [d for n, d in corp if n.startswith("valid/spec-example")]:
         for i in range(len(d)):
             cases.append(("truncation", "", d[:i], None, None))
+    # statement sequences (the C09 scope): definitions that collide or extend each other in every order
+    from props import c09 as _c09
+    import defrules as _dr
+    sts = _c09.statements(_c09.paths("quick"))
+    for _ in range(60000 if big else 6000):
+        sq = tuple(rng.choice(sts) for _ in range(rng.choice([2, 3, 3, 4])))
+        verdict = _dr.run(list(sq))
+        txt = _c09.render(rng, sq).encode()
+        exp_ok = None if verdict[0] == "undecided" else (verdict[0] == "valid")
+        exp_plain = _c09.to_plain(verdict[1]) if verdict[0] == "valid" else None
+        cases.append(("statements", "", txt, exp_plain, exp_ok))
     # implementation limits L1/L2
     for t in ["a = 9223372036854775807", "a = 9223372036854775808", "a = -9223372036854775808", "a = -9223372036854775809",
               "a = 0x7fffffffffffffff", "a = 0x8000000000000000", "a = 0o777777777777777777777", "a = 0o1000000000000000000000",
